@@ -311,3 +311,21 @@ func VH_C05_unsupported() {
 	vAssert(err != nil, "bounds-rejected")
 	vReach("end")
 }
+
+// The point reader works in chunks of maxPrealloc points (a constant of the
+// code under test): lengths around one and two chunk boundaries.
+func VH_C05_linestring_chunks() {
+	n := []int{maxPrealloc - 1, maxPrealloc, maxPrealloc + 1, 2*maxPrealloc + 1}[vChoose(4)]
+	pts := make([]geom.Point, n)
+	for i := range pts {
+		// symbolic at both ends and around the chunk boundary, distinct constants elsewhere
+		if i < 2 || i >= n-2 || (i >= maxPrealloc-2 && i <= maxPrealloc+1) {
+			pts[i] = vPt()
+		} else {
+			pts[i] = geom.Point{X: float64(i), Y: float64(-i)}
+		}
+	}
+	g := geom.GeometryCollection{geom.LineString(pts), vPt()}
+	vRoundTrip(g)
+	vReach("end")
+}
